@@ -57,7 +57,7 @@ class HarnessError(Exception):
 
 class ThreadState:
     __slots__ = ('name', 'go', 'token', 'finished', 'started', 'time_calls', 'blocks', 'waiting_on',
-                 'kill', 'exc', 'tb', 'waits', 'is_job', 'max_time_calls', 'thread')
+                 'kill', 'exc', 'tb', 'waits', 'is_job', 'max_time_calls', 'thread', 'blocked_in_put')
 
     def __init__(self, name):
         self.name = name
@@ -75,6 +75,7 @@ class ThreadState:
         self.waits = []          # (virtual now, timeout) of every blocking wait (bounded)
         self.is_job = False
         self.thread = None
+        self.blocked_in_put = False
 
 
 class Sim:
@@ -270,11 +271,37 @@ class VQueue:
         self.maxsize = maxsize
         self.items = collections.deque()
         self.waiters = []
+        self.putters = []
         self.n_put = 0
         self.n_get_block = 0
 
     # -- non blocking part --
     def put(self, item, block=True, timeout=None):
+        if self.maxsize and self.maxsize > 0 and len(self.items) >= self.maxsize:
+            # bounded queue that is full: the real put() blocks (or raises Full)
+            if not block:
+                raise Full
+            if timeout is not None and timeout < 0:
+                raise ValueError("'timeout' must be a non-negative number")
+            sim = CUR
+            st = sim.states.get(threading.current_thread()) if sim is not None else None
+            if st is None:
+                # the driver plays the receive thread: a put that cannot complete means notify() never returns
+                raise Runaway('put() on a full bounded queue (maxsize %d) blocked the calling thread for ever' % self.maxsize)
+            until = None if timeout is None else sim.now + timeout
+            if len(st.waits) < 4096:
+                st.waits.append((sim.now, timeout))
+            st.blocked_in_put = True
+            self.putters.append(st)
+            try:
+                while len(self.items) >= self.maxsize:
+                    sim.block_current(until, self)
+                    if until is not None and sim.now >= until and len(self.items) >= self.maxsize:
+                        raise Full
+            finally:
+                st.blocked_in_put = False
+                if st in self.putters:
+                    self.putters.remove(st)
         self.items.append(item)
         self.n_put += 1
         if self.waiters:
@@ -291,7 +318,7 @@ class VQueue:
         return not self.items
 
     def full(self):
-        return False
+        return bool(self.maxsize and self.maxsize > 0 and len(self.items) >= self.maxsize)
 
     def task_done(self):
         pass
@@ -299,7 +326,16 @@ class VQueue:
     def get_nowait(self):
         return self.get(False)
 
+    def _took(self):
+        if self.putters and CUR is not None:
+            CUR.wake(self.putters[0])
+
     def get(self, block=True, timeout=None):
+        r = self._get(block, timeout)
+        self._took()
+        return r
+
+    def _get(self, block=True, timeout=None):
         if not block:
             if self.items:
                 return self.items.popleft()
